@@ -158,6 +158,37 @@ def explore_l3(runs, base, groups=6):
     return traces, meta
 
 
+GEN_ONLY_C16 = {"C01.OutOfOrder", "C01.ResultYieldedTwice", "C01.ResultsLost", "C01.ResultOfUnfinishedTask"}
+LEFTOVER = {"C04.CarryOverFromEarlierCall", "C04.ResultOfEarlierCall"}
+
+
+def also_violates(why, trace, line):
+    """A clause of ParallelAbs is named after the property it belongs to first; the same broken clause can also contradict the
+    statement of another property, depending on what happened before in the execution (which call, which mode, how the
+    earlier calls ended).  Returns the set of those other properties.  Only consulted for executions TLC has rejected."""
+    pre = trace[:max(0, line)]
+    calls = [e for e in pre if e.get("ev") == "CallStart"]
+    ends = [e.get("kind") for e in pre if e.get("ev") == "End"]
+    mode = calls[-1].get("mode") if calls else None
+    gen = mode in ("gen", "unord")
+    prior_failed = any(k in ("raised_task", "raised_iter", "timeout") for k in ends)
+    abandoned = any(k == "closed" for k in ends) or any(e.get("ev") in ("Close", "Overlap") for e in pre)
+    healthy = not prior_failed and not abandoned and not any(e.get("ev") in ("PullRaise",) or (e.get("ev") == "TEnd" and not e.get("ok", True)) for e in pre)
+    out = set()
+    if why.startswith("C01."):
+        if gen and why in GEN_ONLY_C16: out.add("C16")          # C16: "in the promised order ... each exactly once"
+        if prior_failed: out.add("C04")                          # C04: the next call "returns exactly the results of the new tasks"
+    if why in LEFTOVER:
+        if abandoned: out.add("C16")                             # C16: reusable after close/drop, "instead of mixing the two runs"
+        if healthy: out.add("C01")                               # C01: a healthy call returns what the loop returns
+    if why in ("C04.UnexpectedOutcome", "C04.NoTermination"):
+        if gen and (abandoned or why == "C04.NoTermination"): out.add("C16")   # (a generator that never ends keeps the object "already running")                     # C16: "terminates cleanly and leaves the Parallel object reusable"
+        if healthy: out.add("C01")
+    if why == "C16.SpuriousRuntimeError" and prior_failed: out.add("C04")    # C04: "can be called again"
+    if why == "C09.DispatchAfterStop" and abandoned and not prior_failed: out.add("C16")   # C16: closing "stops further dispatch"
+    return out
+
+
 def validate(c, traces, meta, own, chunk=6000, label="L1"):
     """TLC-validate traces against ParallelAbs; record violations of property `own` (prefix of the clause)."""
     other = collections.Counter()
@@ -176,7 +207,7 @@ def validate(c, traces, meta, own, chunk=6000, label="L1"):
         for ti, (line, why) in rej.items():
             mt = meta[k + ti]
             prop = why.split(".")[0]
-            if prop == own:
+            if prop == own or own in also_violates(why, part[ti], line):
                 c.violation({"clause": why, "driver": mt.get("driver", label), "cfg": _short(mt["cfg"]), "sched": mt["sched"]},
                             "%s: real execution rejected by ParallelAbs at event %d: clause %s" % (own, line, why),
                             {"event": part[ti][line - 1] if 0 < line <= len(part[ti]) else None,
